@@ -253,6 +253,11 @@ def rquat(rng, kind=None):
             y, pt, r = rhalf(rng), rhalf(rng, forward=True), rhalf(rng)
             if pt[1] != 0 and r[1] != 0 and r[0] != 0:
                 return qz(*y) * qx(*pt) * qy(*r), kind
+    if kind in ("pitch", "roll"):   # yaw and exactly one of pitch / roll
+        y, t = rhalf(rng), rhalf(rng, forward=True)
+        if t[1] == 0:
+            t = (F(2), F(1))
+        return qz(*y) * (qx(*t) if kind == "pitch" else qy(*t)), kind
     if kind == "axis":
         return rng.choice([Quat(1, 1, 0, 0), Quat(1, 0, 1, 0), Quat(1, 0, 0, 1), Quat(0, 1, 0, 0), Quat(0, 0, 1, 0),
                            Quat(0, 0, 0, 1), Quat(1, -1, 0, 0), Quat(1, 1, 1, 1)]), kind
@@ -1112,7 +1117,7 @@ def plan_facing(ctx, batch, n):
             pk = "tilt"
         else:
             kind, mode = rng.choice(FACE_KINDS), rng.choice(["ex", "ex", "op", "sf"])
-            pk = rng.choice(["tilt", "tilt", "gen", None])
+            pk = rng.choice(["tilt", "tilt", "gen", "pitch", "roll", None])
         if kind == "apparent":
             mode = "ex"
             if rng.random() < 0.6:
@@ -1120,6 +1125,8 @@ def plan_facing(ctx, batch, n):
         c = dict(family="facing", kind=kind, mode=mode, pq=rquat(rng, pk),
                  tq=rquat(rng), p=rpos(rng), t=rpos(rng), e=(rhalf(rng), rhalf(rng, True), rhalf(rng)), h=rhalf(rng),
                  n=rng.choice([-3, -2, -1, 0, 1, 2, 3]))
+        if rng.random() < 0.15:      # boundary headings: 0, +-pi/2, pi, 2 pi
+            c["h"] = tuple(F(x) for x in rng.choice([(1, 0), (1, 1), (1, -1), (0, 1), (-1, 0)]))
         p, pq = fv(c["p"]), c["pq"][0].xyzw()
         if kind == "apparent":
             c["call"] = ("appfacing_", p, pq, ang_f(c["h"]), fv(c["t"]))
